@@ -100,7 +100,7 @@ def reset_locks():
 
 
 class Scheduler:
-    def __init__(self, prefix=(), gate_kinds=('resolve', 'connect', 'recv', 'select'), wall_limit=30.0):
+    def __init__(self, prefix=(), gate_kinds=('resolve', 'connect', 'recv', 'select'), wall_limit=30.0, explore_main=False):
         self.prefix = list(prefix)
         self.gate_kinds = set(gate_kinds)
         self.cv = threading.Condition()
@@ -118,6 +118,7 @@ class Scheduler:
         self.wall_limit = wall_limit
         self.main_done = False
         self.error = None
+        self.explore_main = explore_main   # offer 'the main thread collects a finished target later' as a schedule choice (else: at once)
         self.main_gated = False     # the tool collects its results through as_completed(): each collection is a scheduled event
         self.main_taken = 0         # futures the main thread has taken out of as_completed() so far
         self.main_busy = False      # released from its gate and not yet back asking for the next result
@@ -238,6 +239,13 @@ class Scheduler:
                         self.deadlock.append(label)
                         self.go.pop(label).set()
                     self.blocked.clear()
+                    deadline = _time.time() + self.wall_limit
+                    continue
+                if self.MAIN in self.parked and not self.explore_main:
+                    # collection is not a choice in this exploration: the main thread takes a finished target at once
+                    del self.parked[self.MAIN]
+                    self.main_busy = True
+                    self.go.pop(self.MAIN).set()
                     deadline = _time.time() + self.wall_limit
                     continue
                 enabled = sorted(self.parked, key=lambda l: l[0])
@@ -378,9 +386,9 @@ def install(mods):
                     setattr(o, name, SchedLock(reentrant=isinstance(v, _REAL_LOCK_TYPES[1])))
 
 
-def run_scheduled(run_cli, argv, world, prefix=(), gate_kinds=('resolve', 'connect', 'recv', 'select'), **kw):
+def run_scheduled(run_cli, argv, world, prefix=(), gate_kinds=('resolve', 'connect', 'recv', 'select'), explore_main=False, **kw):
     """Run one CLI invocation under the gate scheduler.  Returns (result, scheduler)."""
-    s = Scheduler(prefix, gate_kinds)
+    s = Scheduler(prefix, gate_kinds, explore_main=explore_main)
     world.sched = s
     box = []
 
